@@ -44,6 +44,7 @@ RULE = ("eval: E x K prediction matrices, E,K in 1..7 (square and non-square; C-
         "single-agent measurement, control in both columns and a skipped combination.")
 
 REL = 1e-9
+LONG_NAMES = ["sample_" + "x" * 24, "é" * 26, "cell line with a long descriptive name 0123456789"]
 
 
 def fb(x):
@@ -113,7 +114,7 @@ def gen_eval(rng, idx):
         rng.shuffle(chains)
     else:
         chains = [rng.choice([0, 1, 1, 2]) for _ in range(K)]
-    names = [rng.choice(S.NAME_POOL[1:]) for _ in range(E)]
+    names = [rng.choice(S.NAME_POOL[1:] + LONG_NAMES) for _ in range(E)]
     layout = rng.choice(["c", "c", "t", "strided"])
     bad = None
     if rng.random() < 0.08:
@@ -170,6 +171,7 @@ def run_eval(case, res, lines, tmp):
     mu_c = fsum(cm) / len(cm)
     want["interchain"] = fsum((x - mu_c) ** 2 for x in cm) / len(cm)
     want["meanpred"] = [fsum(float(preds[e, k]) for k in range(K)) / K for e in range(E)]
+    in_before = (preds.tobytes(), obs.tobytes(), chains.tobytes(), names.tobytes(), P.deep_snap(ev))
     got = {}
     for k, f in (("mse", lambda: float(ev.mse())), ("msevar", lambda: float(ev.mse_variance())),
                  ("interchain", lambda: float(ev.inter_chain_mse_variance())),
@@ -180,6 +182,26 @@ def run_eval(case, res, lines, tmp):
             res.fail("evaluation metric raises on a consistent evaluation", case, {"metric": k, "error": repr(e)[:200]}, "a value",
                      signature="C20:" + k)
             got[k] = [float("nan")] * E if k == "meanpred" else float("nan")
+    # object reuse / aliasing: the same evaluation object asked again, in another order, answers bit-identically; the vector it
+    # returned earlier is still what it was and is not a view of the prediction matrix; no input / attribute changed
+    try:
+        mp_arr = ev.mean_predictions
+        mp_then = [fb(x) for x in np.asarray(mp_arr).reshape(-1)]
+        again = {"interchain": float(ev.inter_chain_mse_variance()), "meanpred": [float(x) for x in np.asarray(ev.mean_predictions).reshape(-1)],
+                 "msevar": float(ev.mse_variance()), "mse": float(ev.mse())}
+        for k in ("mse", "msevar", "interchain"):
+            if fb(again[k]) != fb(got[k]):
+                res.fail("a metric of the same evaluation object changes when asked again", case, {"metric": k, "first": got[k], "again": again[k]},
+                         "identical", signature="C20:object-reuse")
+        if [fb(x) for x in again["meanpred"]] != [fb(x) for x in got["meanpred"]] or [fb(x) for x in np.asarray(mp_arr).reshape(-1)] != mp_then:
+            res.fail("mean_predictions changes when asked again / an earlier result changed", case, again["meanpred"][:6], got["meanpred"][:6],
+                     signature="C20:object-reuse")
+        if isinstance(mp_arr, np.ndarray) and mp_arr.size and (np.shares_memory(mp_arr, preds) or np.shares_memory(mp_arr, obs)):
+            res.fail("mean_predictions shares storage with the evaluation's inputs", case, "view", "fresh array", signature="C20:aliasing")
+    except Exception as e:  # noqa
+        res.fail("evaluation metric raises when asked again", case, repr(e)[:200], "a value", signature="C20:object-reuse")
+    if (preds.tobytes(), obs.tobytes(), chains.tobytes(), names.tobytes(), P.deep_snap(ev)) != in_before:
+        res.fail("evaluation metrics mutated the evaluation or its input arrays", case, "changed", "unchanged", signature="C20:input-mutation")
     msgs = {"mse": "mse is not the mean squared error over all (experiment, posterior sample) pairs",
             "msevar": "mse_variance is not the variance across experiments of the per-experiment mean squared error",
             "interchain": "inter_chain_mse_variance is not the variance of the per-chain MSEs",
@@ -199,7 +221,11 @@ def run_eval(case, res, lines, tmp):
         try:
             ev.save_h5(fn)
             ev2 = ModelEvaluation.load_h5(fn)
-            same = (ev2.predictions.tobytes() == preds.tobytes() and ev2.predictions.shape == preds.shape
+            attrs_same = sorted(vars(ev2)) == sorted(vars(ev)) and all(
+                np.asarray(vars(ev2)[k]).shape == np.asarray(vars(ev)[k]).shape
+                and np.asarray(vars(ev2)[k]).dtype.kind == np.asarray(vars(ev)[k]).dtype.kind
+                and np.asarray(vars(ev2)[k]).tolist() == np.asarray(vars(ev)[k]).tolist() for k in vars(ev))
+            same = (attrs_same and ev2.predictions.tobytes() == preds.tobytes() and ev2.predictions.shape == preds.shape
                     and ev2.observations.tobytes() == obs.tobytes()
                     and [int(x) for x in ev2.chain_ids] == [int(x) for x in chains]
                     and [str(x) for x in ev2.sample_names] == [str(x) for x in names])
@@ -233,10 +259,26 @@ def gen_effects(rng, idx):
     sid_pool = rng.sample([0, 1, 2, 5, 7], n_s)
     tid_pool = rng.sample([0, 1, 2, 3, 6, 9], n_t)
     n = rng.randint(0, 14) if rng.random() < 0.9 else 0
+    mode = "random"
+    r = rng.random()
+    if r < 0.25:
+        # ids with gaps whose differences are multiples of the NUMBER of distinct ids (control included): two samples s, s+k and
+        # two agents t, t+c*k -- any (sample, treatment) key packed with a radix that is a count instead of max id + 1 collides
+        mode = "gap_collision"
+        k = rng.choice([1, 2, 3])
+        extra = rng.choice([0, 1])
+        c = 3 + extra
+        t0 = rng.choice([0, 1, 2])
+        tid_pool = [t0, t0 + c * k] + ([t0 + c * k + 1] if extra else [])
+        s0 = rng.choice([0, 1, 4])
+        sid_pool = [s0, s0 + k]
+        n = rng.randint(6, 14)
+    elif r < 0.31:
+        mode = "no_control"
     sids, tids, obs = [], [], []
     for _ in range(n):
         s = rng.choice(sid_pool)
-        m = rng.random()
+        m = rng.random() if mode != "no_control" else 0.6
         if m < 0.45:        # single agent, control elsewhere, in a random column
             row = [-1] * arity
             row[rng.randrange(arity)] = rng.choice(tid_pool)
@@ -251,7 +293,8 @@ def gen_effects(rng, idx):
         sids.append(s)
         tids.append(row)
         obs.append(rng.choice([rng.random(), rng.random(), 0.5, 0.25, 1.0, 0.0]))
-    return {"kind": "effects", "idx": idx, "arity": arity, "sids": sids, "tids": tids, "obs": [fb(x) for x in obs]}
+    return {"kind": "effects", "idx": idx, "arity": arity, "sids": sids, "tids": tids, "obs": [fb(x) for x in obs], "mode": mode,
+            "layout": rng.choice(["c", "c", "f", "strided_ro", "negstride"])}
 
 
 def ref_effect_map(arity, sids, tids, obs):
@@ -281,6 +324,19 @@ def run_effects(case, res, lines):
     sids = np.array(sids_l, dtype=int)
     tids = np.array(tids_l, dtype=int).reshape(n, a)
     obs = np.array(obs_l, dtype=float)
+    lay = case.get("layout", "c")
+    if lay == "f":
+        tids = np.asfortranarray(tids)
+    elif lay == "strided_ro":
+        def _sv(x):
+            big = np.full(tuple(2 * k for k in x.shape), 5, dtype=x.dtype)
+            v = big[tuple(slice(None, None, 2) for _ in x.shape)]
+            v[...] = x
+            v.flags.writeable = False
+            return v
+        sids, tids, obs = _sv(sids), _sv(tids), _sv(obs)
+    elif lay == "negstride":
+        sids, tids, obs = (np.ascontiguousarray(x[::-1])[::-1] for x in (sids, tids, obs))
     keep = (sids.copy(), tids.copy(), obs.copy())
     head = "%d %s %s %s" % (a, ints_tok(sids_l), rows_tok(tids_l), vec_tok(obs))
     want = ref_effect_map(a, sids_l, tids_l, obs_l)
@@ -361,6 +417,8 @@ def gen_model(rng, idx, kind_name):
     kind = "sdc" if rng.random() < 0.7 else "sdci"
     n_s = rng.randint(1, 4) if (kind_name != "space" or rng.random() < 0.2) else rng.randint(2, 4)
     n_t = rng.randint(1, 4)
+    if kind_name == "space" and rng.random() < 0.1:
+        n_s = 11            # two-digit sample names ("s10" sorts before "s2")
     arity = 2 if kind == "sdci" else rng.choice([1, 2, 2])
     raw = P.gen_raw(rng, arity, n_s, n_t, n_max=10)
     if len(raw["snames"]) == 0:
@@ -419,6 +477,7 @@ def run_space(case, res, lines):
     usids = [int(x) for x in sc.unique_sample_ids]
     tm_ids = [int(x) for x in tm[2]]
     sm_ids = [int(x) for x in sm[1]]
+    snap0 = (P.deep_snap(sc), [P.deep_snap(t) for t in ths])
     spaces = {}
     for sid in usids[:2]:
         try:
@@ -456,6 +515,19 @@ def run_space(case, res, lines):
         cols = [str(x) for x in cm.columns]
     except Exception as e:  # noqa
         corr = S.err_tok(e)
+    if (P.deep_snap(sc), [P.deep_snap(t) for t in ths]) != snap0:
+        res.fail("generate_full_combinatoric_space / correlation_matrix mutated the screen or a posterior sample", case, "changed", "unchanged",
+                 signature="C20:input-mutation")
+    if not isinstance(corr, str):
+        # object reuse: the same holder and screen asked again give the same matrix
+        try:
+            with np.errstate(all="ignore"):
+                cm2 = correlation_matrix(sc, h)
+            if np.asarray(cm2.values).tobytes() != np.asarray(cm.values).tobytes() or [str(x) for x in cm2.index] != labels:
+                res.fail("correlation_matrix of the same screen and holder differs when asked again", case, "different", "identical",
+                         signature="C20:object-reuse")
+        except Exception as e:  # noqa
+            res.fail("correlation_matrix raises when asked again", case, repr(e)[:200], "a matrix", signature="C20:object-reuse")
     supported = (a in (1, 2)) if kind == "sdc" else a == 2
     if not supported:
         if not isinstance(corr, str):
@@ -512,6 +584,42 @@ def run_space(case, res, lines):
             lines.append(("c20.corrp " + mat_tok(Pm), corr, ("matrix", 1e3), case))
 
 
+def run_space_boundary(case, res, lines):
+    """size boundaries of generate_full_combinatoric_space: mapping of `n_map` treatments (ids = positions, no control), arity 2:
+    n_map = 1 -> factorial of a negative number (ValueError); 2 -> exactly one combination; 4472 -> 9 997 156 combinations (allowed,
+    not built here); 4473 -> 10 001 628 > 1e7 (refused)"""
+    from batchie.data import Screen
+    from batchie.models.main import generate_full_combinatoric_space, combination_count
+    n_map = case["n_map"]
+    names = np.array(["d%05d" % i for i in range(n_map)], dtype=str)
+    tm = (names, np.ones(n_map, dtype=float), np.arange(n_map, dtype=int))
+    sm = (np.array(["s0", "s1"], dtype=str), np.array([0, 1], dtype=int))
+    sc = Screen(treatment_names=np.array([[names[0], names[-1]], [names[-1], names[0]]], dtype=str),
+                treatment_doses=np.ones((2, 2), dtype=float), sample_names=np.array(["s1", "s0"], dtype=str),
+                plate_names=np.array(["p", "p"], dtype=str), treatment_mapping=tm, sample_mapping=sm)
+    count = n_map * (n_map - 1) // 2
+    if n_map >= 2 and int(combination_count(n_map, 2)) != count:
+        res.fail("combination_count(n, 2) is not n(n-1)/2", case, int(combination_count(n_map, 2)), count, signature="C20:space-budget")
+    if count > 100000 and count <= 10 ** 7:
+        got = "skipped"      # allowed but too large to build here: only the count and the model's answer are compared
+        if lines is not None:
+            lines.append(("c20.spaceok 2 %d 0,1 0" % n_map, "ok", "text", case))
+        return
+    try:
+        sp = generate_full_combinatoric_space(0, sc)
+        got = (int(sp.size), sorted(set(int(x) for x in sp.sample_ids)), [[int(x) for x in r] for r in np.asarray(sp.treatment_ids)][:3])
+    except Exception as e:  # noqa
+        got = S.err_tok(e)
+    if n_map < 2 or count > 10 ** 7:
+        if got != "err:ValueError":
+            res.fail("generate_full_combinatoric_space does not refuse (arity > treatments, or more than 1e7 combinations)", case, str(got)[:200],
+                     "err:ValueError", signature="C20:space-budget")
+    elif isinstance(got, str) or got[0] != count or got[1] != [0]:
+        res.fail("generate_full_combinatoric_space refuses / miscounts a space within the budget", case, str(got)[:200], count, signature="C20:space-budget")
+    if lines is not None:
+        lines.append(("c20.spaceok 2 %d 0,1 0" % n_map, "ok" if not isinstance(got, str) else got, "text", case))
+
+
 # ============================================================================= tie comparison
 
 def compare(res, entry, out):
@@ -521,6 +629,10 @@ def compare(res, entry, out):
     def dis(m):
         res.disagree("c20." + line.split(" ")[0][4:], small, str(impl)[:300], m[:300])
 
+    if how == "text":
+        if impl != out:
+            dis(out)
+        return
     if isinstance(impl, str) or out.startswith("err:") or out == "bad-op":
         if impl != out:
             dis(out)
@@ -574,11 +686,27 @@ def _run(ctx, res):
     try:
         for i in range(ctx.scale(120, 6000, 1200)):
             case = gen_eval(ctx.subrng("eval", i), i)
-            run_eval(case, res, lines, tmp if (i % 4 == 0 or ctx.tier != "quick") else None)
+            reload = i % 4 == 0 or ctx.tier != "quick" or any(len(nm) >= 25 for nm in case["names"])
+            run_eval(case, res, lines, tmp if reload else None)
             res.evaluations += 1
             res.count("eval.chains.%s" % case["mode"])
             res.count("eval.square" if case["E"] == case["K"] else "eval.nonsquare")
             res.count("eval.layout.%s" % case["layout"])
+            if not case["bad"]:
+                res.count("class.object_reuse.eval")
+                res.count("class.input_mutation_aliasing.eval")
+                if reload:
+                    res.count("class.attribute_completeness.reload")
+                if case["layout"] != "c":
+                    res.count("class.memory_layout.eval")
+                if any(len(nm) >= 25 for nm in case["names"]):
+                    res.count("class.long_names.eval")
+                if case["chains"] != sorted(case["chains"]):
+                    res.count("class.row_order.chains_interleaved")
+                if case["E"] == 1 or case["K"] == 1:
+                    res.count("class.falsy.E1_or_K1")
+                if 0 in case["chains"] and len(set(case["chains"])) >= 2:
+                    res.count("class.falsy.chain_label_0")
             if case["chains"] != sorted(case["chains"]):
                 res.count("eval.chains.not_sorted_blocks")
             if case["bad"]:
@@ -604,6 +732,33 @@ def _run(ctx, res):
                 cols.add(r.index(nc[0]))
         skipped = any(len([t for t in r if t != -1]) >= 2 and any((s, t) not in singles for t in r if t != -1)
                       for s, r in zip(case["sids"], case["tids"]))
+        ids_used = sorted(set(t for r in case["tids"] for t in r))
+        nonctl = [t for t in ids_used if t != -1]
+        if nonctl and nonctl != list(range(len(nonctl))) and len(set(case["sids"])) >= 2 and singles:
+            res.count("class.encoding.id_gaps_multi_sample")
+        if case["mode"] == "gap_collision" and len(set(singles)) >= 3:
+            res.count("class.encoding.gap_radix_collision")
+        if case["tids"] and -1 not in ids_used:
+            res.count("class.encoding.no_control")
+        if case["layout"] != "c" and case["tids"]:
+            res.count("class.memory_layout.effects")
+        if any(s == 0 and 0 in r and sum(1 for x in r if x != -1) == 1 for s, r in zip(case["sids"], case["tids"])):
+            res.count("class.falsy.sample0_treatment0_single")
+        if any(S.from_bits(b) == 0.0 for b in case["obs"]):
+            res.count("class.falsy.observation_zero")
+        if len(case["sids"]) <= 1:
+            res.count("class.falsy.n0_n1")
+        # a combination row BEFORE the single-agent measurement of one of its agents
+        first_single = {}
+        for i, (s_, r) in enumerate(zip(case["sids"], case["tids"])):
+            nc = [t for t in r if t != -1]
+            if len(nc) == 1:
+                first_single.setdefault((s_, nc[0]), i)
+        if any(len([t for t in r if t != -1]) >= 2 and any(first_single.get((s_, t), -1) > i for t in r if t != -1)
+               for i, (s_, r) in enumerate(zip(case["sids"], case["tids"]))):
+            res.count("class.row_order.single_after_combo")
+        if case["tids"]:
+            res.count("class.input_mutation.effects")
         if any(v >= 2 for v in singles.values()):
             res.count("effects.repeated_single")
         if skipped:
@@ -622,12 +777,27 @@ def _run(ctx, res):
         run_space(case, res, lines)
         res.evaluations += 1
         res.count("space.%s.arity%d" % (case["model"], case["raw"]["arity"]))
+        res.count("class.input_mutation.space")
+        res.count("class.object_reuse.corr")
+        if case["raw"].get("enc"):
+            res.count("class.encoding.permuted.space")
+        if case["raw"].get("suffix"):
+            res.count("class.long_names.space")
+        if case["raw"]["n_s"] >= 11:
+            res.count("class.size.two_digit_names")
+        if any(t.get("layout", "c") != "c" for t in case["thetas"]):
+            res.count("class.memory_layout.space")
         if case["raw"].get("enc"):
             res.count("space.nondefault_encoding")
         if case["raw"].get("mask") is not None and not all(case["raw"]["mask"]):
             res.count("space.partially_observed")
         if len(set(case["raw"]["snames"])) >= 2:
             res.nontrivial.add(("space", i))
+    for n_map in (1, 2, 3, 4472, 4473):
+        case = {"kind": "space_boundary", "idx": n_map, "n_map": n_map}
+        run_space_boundary(case, res, lines)
+        res.evaluations += 1
+        res.count("class.size.space_budget_boundary")
     res.traces_validated = res.evaluations
     if lines:
         outs = ctx.driver.ask([e[0] for e in lines])
@@ -654,3 +824,5 @@ def replay(ctx, case, res):
         run_cmse(case, res, None)
     elif k == "space":
         run_space(case, res, None)
+    elif k == "space_boundary":
+        run_space_boundary(case, res, None)
